@@ -283,7 +283,16 @@ def main():
     if n_obl == 0 and not standins:
         print('checker error: zero obligations generated')
         return 3
-    return 1 if nviol else 0
+    if nviol:
+        return 1
+    if undecided or n_unknown:
+        # a contract could not be bound to the code any more, or an obligation stayed open: neither held nor violated
+        for u in undecided:
+            print('UNDECIDED %s: %s %s' % (u.get('contract'), u.get('status'), (u.get('reason') or '')[:200]))
+        for k in n_unknown:
+            print('UNDECIDED %s: solver gave no verdict' % k)
+        return 2
+    return 0
 
 
 def kill_matrix(prop):
